@@ -99,7 +99,8 @@ def build(spec, fs_dir=None):
     return loaded
 
 
-CIF_QUIRKS = ["occ_unknown", "no_type_symbol", "symop_new_key", "it_number_only", "esd", "shifted_origin", "shifted_origin"]
+CIF_QUIRKS = ["occ_unknown", "no_type_symbol", "symop_new_key", "it_number_only", "esd", "shifted_origin", "shifted_origin",
+              "symop_blanks"]
 
 
 def apply_cif_quirks(text, spec):
@@ -149,6 +150,12 @@ def apply_cif_quirks(text, spec):
                   "space_group_symop_operation_xyz", "space_group_symop_id"):
             data.pop(k, None)
         data = dict([("space_group_IT_number", int(spec["sg"][0]))] + list(data.items()))
+    if "symop_blanks" in quirks:
+        # operations written the usual CIF way, 'x, y, z' (quoted, with blanks)
+        for k in ("symmetry_equiv_pos_as_xyz", "space_group_symop_operation_xyz"):
+            if k in data:
+                data[k] = [str(x).replace("+", "").replace(",", ", ") if not str(x).startswith("-")
+                           else str(x).replace("+", "").replace(",", ", ") for x in data[k]]
     if "descriptive" in quirks:
         # optional items that describe the structure as deposited files do
         # (names of the setting, derived cell quantities); the reader ignores
@@ -202,13 +209,24 @@ def _cell_for(rng, number, choice):
         ang = [90.0, 90.0, 90.0]
         L = [a, a, c]
     elif number <= 194:
+        odd = rng.random() if number in RGROUPS else 1.0
         if choice == "R":
             al = round(rng.uniform(55, 105), 3)
             ang = [al, al, al]
             L = [a, a, a]
+            if odd < 0.06:
+                # lengths that agree to six digits only: still "equal" for the
+                # library's relative tolerance, not for an exact comparison
+                L = [a, round(a * (1 + 4e-6), 7), a]
+            elif odd < 0.12:
+                ang = [97.1808, 97.1808, 97.1808]  # the hexagonal description of this cell has c == a
         else:
             ang = [90.0, 90.0, 120.0]
             L = [round(a + 3, 4), round(a + 3, 4), c] if number in RGROUPS else [a, a, c]
+            if odd < 0.06:
+                L = [L[0], round(L[0] * (1 + 4e-6), 7), c]
+            elif odd < 0.12:
+                L = [L[0], L[0], L[0]]  # c == a: not "hexagonal" for the library's classification
     else:
         ang = [90.0, 90.0, 90.0]
         L = [a, a, a]
@@ -301,6 +319,8 @@ def gen_spec(rng, kind=None):
         quirks = rng.sample(CIF_QUIRKS, rng.randint(1, 2))
     if via == "cif" and rng.random() < 0.4:
         quirks = (quirks or []) + ["descriptive"]
+    if quirks and "shifted_origin" in quirks and "symop_blanks" not in quirks and rng.random() < 0.5:
+        quirks = quirks + ["symop_blanks"]
     return {
         "quirks": quirks,
         "labels": labels,
